@@ -34,6 +34,9 @@ ObsClause(o, ob) ==
     ELSE IF \E n \in QueryNames : ob.look[n] # Get(o, n) THEN "LookupAnyCasing"
     ELSE IF \E n \in QueryNames : ob.lists[n] # GetList(o, n) THEN "GetList"
     ELSE IF \E n \in QueryNames : ob.has[n] # Has(o, n) THEN "Membership"
+    \* equality with sources built from the object's own content: its lines, its merged view, its lines with every
+    \* name's casing flipped (equal); its lines plus one more line (not equal)
+    ELSE IF ob.eqsrc # [lines |-> TRUE, merged |-> TRUE, caseflip |-> TRUE, extra |-> FALSE] THEN "EqualityWithSource"
     ELSE "ok"
 
 EqRef(o1, o2) == {<<o1[x].k, Join(o1[x].vs)>> : x \in 1..Len(o1)} = {<<o2[x].k, Join(o2[x].vs)>> : x \in 1..Len(o2)}
